@@ -360,12 +360,17 @@ def _color_desc_88(num: int) -> str:
     return f"g{_GRAY_STEPS_88_101[num - _GRAY_START_88]:d}"
 
 
+def _is_hex(digits: str) -> bool:
+    """True if digits consists of hexadecimal digits only (no sign, prefix, underscore or whitespace)"""
+    return bool(digits) and all(ch in "0123456789abcdefABCDEF" for ch in digits)
+
+
 def _parse_color_true(desc: str) -> int | None:
     if (c := _parse_color_256(desc)) is not None:
         (r, g, b) = _COLOR_VALUES_256[c]
         return (r << 16) + (g << 8) + b
 
-    if not desc.startswith("#"):
+    if not desc.startswith("#") or not _is_hex(desc[1:]):
         return None
 
     if len(desc) == 7:
@@ -449,7 +454,7 @@ def _parse_color_256(desc: str) -> int | None:
 
 
 def _true_to_256(desc: str) -> str | None:
-    if not (desc.startswith("#") and len(desc) == 7):
+    if not (desc.startswith("#") and len(desc) == 7 and _is_hex(desc[1:])):
         return None
 
     c256 = _parse_color_256("#" + "".join(format(int(x, 16) // 16, "x") for x in (desc[1:3], desc[3:5], desc[5:7])))
